@@ -374,6 +374,8 @@ pub fn registry() -> Vec<Entry> {
                             (1000, 100, 105, "H2PE"), (5000, 60, 900, "H2PE"), (50000, 49900, 5300, "H2PE"), (3000, 2700, 2880, "H2PE"), (200000, 150, 15000, "H2PE"),
                             // huge modes (the squeeze must do the work: an exact evaluation of f(y) walks |y - m| ~ sqrt(N) steps)
                             (1u64 << 40, 1 << 39, 1 << 39, "H2PE"), (1u64 << 56, 1 << 55, 1 << 54, "H2PE"), (1u64 << 62, 1 << 61, 1 << 61, "H2PE"),
+                            // strongly unbalanced populations (K << N) with a large sample: the hat must still fit (mean words stay small)
+                            (1u64 << 40, 1 << 20, 1 << 39, "H2PE"), (1u64 << 50, 1 << 30, 1 << 49, "H2PE"), (1u64 << 30, 1 << 12, 1 << 29, "H2PE"),
                             // optional: the constructor may refuse (PopulationTooLarge); if it builds a value, sampling it must not panic (F11)
                             (1u64 << 62, 1 << 40, 1 << 61, "H2PE optional")] {
         ent!(v, "Hypergeometric", "int", var, [nn, k, s], Hypergeometric::new(nn, k, s).ok().and_then(b::<_, u64>)); }
